@@ -144,9 +144,19 @@ class Reader:
         ]
         return data
 
+    @staticmethod
+    def _validate_segments_not_overlapping(segments: List[Tuple[int, int, int, int]]) -> None:
+        segments_ranges = sorted((start, start + length) for start, length, _, _ in segments)
+        for (start1, end1), (start2, end2) in zip(segments_ranges, segments_ranges[1:]):
+            if start2 < end1:
+                raise FlipJumpReadFjmException(
+                    f"Bad .fjm file: overlapping segments [{start1}, {end1}) and [{start2}, {end2})."
+                )
+
     def _init_memory(self, segments: List[Tuple[int, int, int, int]], data: List[int]) -> None:
         self.memory = {}
         self.zeros_boundaries = []
+        self._validate_segments_not_overlapping(segments)
 
         self.memory_segments: List[MemorySegment] = []
         for segment_start, segment_length, data_start, data_length in segments:
@@ -160,6 +170,22 @@ class Reader:
                 raise FlipJumpReadFjmException(
                     f"Bad .fjm file: segment data range [{data_start}, {data_start + data_length})"
                     f" exceeds data pool length {len(data)}."
+                )
+            # the segment-table invariants that the writer guarantees - a file breaking them is damaged
+            if segment_length <= 0 or segment_length < data_length:
+                raise FlipJumpReadFjmException(
+                    f"Bad .fjm file: segment length ({segment_length}) must be positive and at least "
+                    f"its data-length ({data_length})."
+                )
+            if segment_start % 2 != 0 or segment_length % 2 != 0:
+                raise FlipJumpReadFjmException(
+                    f"Bad .fjm file: segment start ({segment_start}) and length ({segment_length}) must be even "
+                    f"(2*w aligned)."
+                )
+            if segment_start + segment_length >= (1 << 64):
+                raise FlipJumpReadFjmException(
+                    f"Bad .fjm file: segment [{segment_start}, {segment_start + segment_length}) "
+                    f"doesn't fit in the 64-bit address space."
                 )
             self.memory_segments.append(MemorySegment(segment_start, segment_length))
             if self.version in (FJMVersion.RelativeJumpVersion, FJMVersion.CompressedVersion):
